@@ -194,3 +194,62 @@ _prio("C15", "Divider contract and fail-safe faults: the stub divider ASSERTS it
       "a fault (non-zero added total != dividend) injected at any call of a round or of the constructor yields ErrDividerBad from safeDivide/New/loop, no hand-out afterwards, capacity monitor still holds, "
       "main reports exactly that value and closes; New rejects zero shares (Fair exact, Rate for any float values, arbitrary sum-preserving divider).",
       [_G_NEW, _G_STEP, _G_LOOP1])
+
+# ---- v1 ---------------------------------------------------------------------------------------------------
+
+def _v1p(harness, q, t, **kw):
+    return dict(mod="v1", pkg="priority", overlay="harness/v1/priority", harness=harness, params=dict(quick=q, thorough=t), **kw)
+
+_SC16 = [dict(msg="^C16: after Stop/cancel", file="replay/v1/priority/c16_scenario_test.go", test="TestVerifScenarioC16Stop")]
+
+PROPS["C16"] = dict(
+    level="model_checking",
+    level_text="Bounded symbolic execution of the real v1 main() of join and priority with Stop()/cancel injected at an arbitrary point (at start, between rounds, at any blocking operation) into an "
+               "otherwise SILENT environment (no release, no consumer, no producer, no Released signal): every path must reach the end of main; a path that blocks is BLOCKED, a path that keeps taking "
+               "the termination-signal case of the same select without terminating is a LASSO (a concrete infinite schedule) - both are reported as violations, replayed natively as a real-time scenario.",
+    level_note="Bounds: priority n=1 (thorough n=2), <=1 item in flight at the start, <=1 item per input; join JoinSize 2, 3 elements. The priority state before the stop is ARBITRARY (any counters satisfying the invariant). "
+               "Lasso bound: 40 repetitions of the same termination-signal case. Trusted: engine, breaker/closing executed from their real SSA, context stub.",
+    technique="symbolic execution of go/ssa with adversarial stop injection and lasso detection; Int-encoded SMT (z3); native real-time scenario replay",
+    assumptions=_PRIO_ASSUME + ["after the stop signal the environment is silent (the worst case the property names)"],
+    bounds=dict(quick="priority n=1, B=1, J=1; join JS=2, M=3", thorough="priority n<=2; join JS<=3, M=4"),
+    groups=[
+        dict(mod="v1", pkg="join", overlay="harness/v1/join", harness="^VerifC16_v1join_stop", params=dict(quick=dict(JS=[2], M=[3], T=[2]), thorough=dict(JS=[2, 3], M=[4], T=[2]))),
+        _v1p("^VerifC16_v1prio_stop$", dict(n=[1], J=[1], B=[1], K=[1]), dict(n=[1, 2], J=[1], B=[1], K=[1]), scenarios=_SC16, maxtime=dict(quick=0, thorough=600)),
+    ],
+)
+
+_V1_STEP = _v1p("^VerifC01_step_(calcTactic|recalcTactic|io|feedback)$", dict(n=[1, 2, 3], J=[2]), dict(n=[1, 2, 3, 4], J=[3]))
+_V1_PRIOR = _v1p("^VerifC01_step_prioritize$", dict(n=[1, 2], J=[1]), dict(n=[1, 2], J=[2]))
+_V1_MAIN = _v1p("^VerifC07_v1_main_graceful$", dict(n=[1], J=[1], B=[1], K=[1]), dict(n=[1], J=[2], B=[2], K=[2]))
+_V1_PROMPT = _v1p("^VerifC07_v1_prompt$", dict(n=[1, 2, 3], B=[2]), dict(n=[1, 2, 3], B=[3]))
+_V1_ROUND = _v1p("^Verif(C05_saturated_round|C06_progress|C06_sole_priority)$", dict(n=[1, 2], Hmax=[3]), dict(n=[1, 2, 3], Hmax=[4]))
+_V1_NEW = _v1p("^VerifC15_v1_new$", dict(n=[1, 2, 3]), dict(n=[1, 2, 3, 4]))
+_SCZ7 = [dict(msg="GracefulStop never completes", file="replay/v1/priority/c16_scenario_test.go", test="TestVerifScenarioC07ZeroShare")]
+_SCZ6 = [dict(msg="an item is delivered without any release", file="replay/v1/priority/c16_scenario_test.go", test="TestVerifScenarioC06ZeroShare")]
+_V1_Z7 = _v1p("^VerifC07_v1_zero_share$", dict(n=[3]), dict(n=[3]), scenarios=_SCZ7)
+_V1_Z6 = _v1p("^VerifC06_v1_zero_share$", dict(n=[3], Hmax=[3]), dict(n=[3], Hmax=[4]), scenarios=_SCZ6)
+_V1_SIMPLE = _v1p("^Verif(C16_v1simple_main|C01_v1simple_handler)$", dict(H=[1, 2], K=[2]), dict(H=[1, 2, 3], K=[3]))
+_V1_C17 = [_v1p("^VerifC17_step_", dict(n=[1, 2, 3]), dict(n=[1, 2, 3, 4])),
+           _v1p("^VerifC17_loop_commands$", dict(n=[1], C=[2], J=[1], B=[1], K=[1]), dict(n=[1, 2], C=[2], J=[1], B=[1], K=[1]), maxtime=dict(quick=0, thorough=900))]
+
+PROPS["C01"]["groups"] += [_V1_STEP, _V1_PRIOR, _V1_MAIN, _V1_NEW, _V1_SIMPLE] + _V1_C17
+PROPS["C02"]["groups"] += [_V1_STEP, _V1_PRIOR, _V1_MAIN, _V1_SIMPLE]
+PROPS["C05"]["groups"] += [_V1_ROUND, _V1_NEW]
+PROPS["C06"]["groups"] += [_V1_ROUND, _V1_MAIN, _V1_Z6, _v1p("^VerifC01_step_calcTactic$", dict(n=[1, 2, 3]), dict(n=[1, 2, 3, 4]))]
+PROPS["C07"]["groups"] += [_V1_MAIN, _V1_PROMPT, _V1_Z7, _V1_SIMPLE, _v1p("^VerifC01_step_io$", dict(n=[1, 2, 3], J=[2]), dict(n=[1, 2, 3, 4], J=[3]))]
+PROPS["C15"]["groups"] += [_V1_STEP, _V1_MAIN, _V1_NEW]
+PROPS["C16"]["groups"] += [_V1_SIMPLE]
+for _p in ("C01", "C02", "C05", "C06", "C07", "C15"):
+    PROPS[_p]["level_note"] += " v1: ported harness (same obligations), plus removed priorities with items in flight (foreign key in actual); v1 progress/termination obligations assume every share >= 1 (documented precondition), the zero-share case is a recorded known finding."
+
+PROPS["C17"] = dict(
+    level="model_checking",
+    level_text="Step obligations on the real addInput/removeInput/clearActual from an arbitrary state (add of a new priority, re-add of a removed one with items still in flight, replacement of a channel, removal): "
+               "registration, strictly descending list without duplicates, strategic division recomputed over the current list, in-flight counters untouched and forgotten only at zero; plus the real loop() with add/replace/remove "
+               "commands parked on the command channels and interleaved with rounds, under the capacity / exactly-once monitors, with an observer that fails on ANY receive from a channel after its removal or replacement was taken.",
+    level_note=_PRIO_NOTE + " Command runs: <=2 commands, n<=1 quick (2 thorough).",
+    technique="symbolic execution of go/ssa: step obligations + bounded command runs; Int-encoded SMT (z3)",
+    assumptions=_PRIO_ASSUME + ["the strategic division in v1 is unchecked: the divider is assumed to obey the sum rule there (property quantifies over sum-preserving dividers)",
+                                "'take effect on return' = the rendezvous on the unbuffered command channel followed in the same goroutine by addInput/removeInput before any other channel operation (observed on the event trace)"],
+    bounds=dict(quick="steps n<=3; command runs n=1, 2 commands", thorough="steps n<=4; command runs n<=2"),
+    groups=_V1_C17 + [_V1_MAIN])
